@@ -188,6 +188,53 @@ fn publish_race(rep: &mut Report) {
     }
 }
 
+/// The same on the other code path (a seed WITHOUT drop glue, `get_or_try_init_no_drop`): pollers of `get()` and
+/// threads waiting in `get_or_init` are all handed the complete value, never the seed's bytes.
+fn publish_race_nodrop(rep: &mut Report) {
+    const MAGIC: u64 = 0xA5A5_5A5A_DEAD_BEEF;
+    const SEEDPAT: u64 = 0x5EED_5EED_5EED_5EED;
+    for round in 0..300 {
+        rep.cases += 1;
+        let cell = Arc::new(OnceInitCell::<[u64; 256], [u64; 256]>::new([SEEDPAT; 256]));
+        let go = Arc::new(std::sync::Barrier::new(5));
+        let count = |v: &[u64; 256]| v.iter().filter(|w| unsafe { std::ptr::read_volatile(*w) } != MAGIC).count();
+        let mut hs: Vec<std::thread::JoinHandle<usize>> = (0..2).map(|_| {
+            let (cell, go) = (cell.clone(), go.clone());
+            std::thread::spawn(move || {
+                go.wait();
+                let t0 = std::time::Instant::now();
+                loop {
+                    if let Some(v) = cell.get() {
+                        return count(v);
+                    }
+                    if t0.elapsed() > std::time::Duration::from_secs(5) {
+                        return usize::MAX;
+                    }
+                    std::hint::spin_loop();
+                }
+            })
+        }).collect();
+        hs.extend((0..2).map(|_| {
+            let (cell, go) = (cell.clone(), go.clone());
+            std::thread::spawn(move || {
+                go.wait();
+                count(cell.get_or_init(|_seed: &mut [u64; 256]| [MAGIC; 256]))
+            })
+        }));
+        go.wait();
+        let own = count(cell.get_or_init(|_seed: &mut [u64; 256]| [MAGIC; 256]));
+        let bads: Vec<usize> = hs.into_iter().map(|h| h.join().unwrap_or(usize::MAX - 1)).collect();
+        rep.checks += 1;
+        if own != 0 || bads.iter().any(|b| *b != 0) {
+            rep.mismatch(json!({"what":"seed without destructor: a concurrent get() / get_or_init() handed out a reference before the value was in place (or never saw the value)",
+                "round":round,"wrong_words_per_thread":bads.iter().map(|b| if *b >= usize::MAX - 1 { -1i64 } else { *b as i64 }).collect::<Vec<_>>(),"wrong_words_own":own}));
+            if rep.mismatches.len() > 5 {
+                return;
+            }
+        }
+    }
+}
+
 /// A cell that is dropped WHILE its thread unwinds (a local of the panicking frame, a bystander of an
 /// unrelated panic, the last `Arc` owner panicking): it still owns its seed and drops it exactly once.
 fn unwind_drops(rep: &mut Report) {
@@ -406,6 +453,7 @@ pub fn main(args: &[String]) {
     // K threads racing; outcomes prescribed per thread; gated so that they overlap
     let mut rng = StdRng::seed_from_u64(seed);
     publish_race(&mut rep);
+    publish_race_nodrop(&mut rep);
     unwind_drops(&mut rep);
     nodrop_races(&mut rep, &mut rng);
     trace::enable();
